@@ -383,6 +383,10 @@ func (c *Config) UnmarshalYAML(unmarshal func(any) error) error {
 	names := map[string]struct{}{}
 
 	for _, rcv := range c.Receivers {
+		if rcv.Name == "" {
+			// An empty list item bypasses Receiver.UnmarshalYAML.
+			return errors.New("missing name in receiver")
+		}
 		if _, ok := names[rcv.Name]; ok {
 			return fmt.Errorf("notification config name %q is not unique", rcv.Name)
 		}
@@ -687,6 +691,10 @@ func (c *Config) UnmarshalYAML(unmarshal func(any) error) error {
 
 	// read mute time intervals until deprecated
 	for _, mt := range c.MuteTimeIntervals {
+		if mt.Name == "" {
+			// An empty list item bypasses MuteTimeInterval.UnmarshalYAML.
+			return errors.New("missing name in mute time interval")
+		}
 		if _, ok := tiNames[mt.Name]; ok {
 			return fmt.Errorf("mute time interval %q is not unique", mt.Name)
 		}
@@ -694,6 +702,10 @@ func (c *Config) UnmarshalYAML(unmarshal func(any) error) error {
 	}
 
 	for _, mt := range c.TimeIntervals {
+		if mt.Name == "" {
+			// An empty list item bypasses TimeInterval.UnmarshalYAML.
+			return errors.New("missing name in time interval")
+		}
 		if _, ok := tiNames[mt.Name]; ok {
 			return fmt.Errorf("time interval %q is not unique", mt.Name)
 		}
